@@ -81,7 +81,10 @@ def run_impl(chunks, kinds):
                 evs.append("E:requires_encryption")
             elif isinstance(ex, ProtocolAPIError):
                 txt = str(ex).rsplit(" ", 1)[-1]
-                evs.append("E:bad_preamble:" + ("-1" if txt == "-1" else f"{int(txt, 16):x}"))
+                try:
+                    evs.append("E:bad_preamble:" + ("-1" if txt == "-1" else f"{int(txt, 16):x}"))
+                except ValueError:
+                    evs.append("E:protocol:" + str(ex)[:60])      # a protocol error that is not the bad-preamble one
             else:
                 evs.append("E:other:" + type(ex).__name__)
         per_call.append(evs)
